@@ -58,6 +58,27 @@ def printers(prog):
                         spec = cval(part.args[1]) if is_const(part.args[1]) else "?"
                         tmpl += "{%s%s}" % (k, (":" + spec) if spec else "")
                 fmts.append(_FStr(C(tmpl), kw, e.where))
+            elif t.op == "join" and t.uid not in seen and is_const(t.args[0]) and isinstance(cval(t.args[0]), str) and unsnap(t.args[1]).op == "tuple":
+                # SEP.join((format(v0, SPEC0), format(v1, SPEC1), ...)) with constant specs is "{v0:SPEC0}SEP{v1:SPEC1}...".format(...) as well
+                seen.add(t.uid)
+                parts, kw = [], {}
+                for it in unsnap(t.args[1]).args[0]:
+                    it = unsnap(it)
+                    if is_const(it) and isinstance(cval(it), str):
+                        parts.append(cval(it).replace("{", "{{").replace("}", "}}"))
+                    elif (builtin_call(it) or ("",))[0] == "format" and len(it.args[1]) == 2 and not it.args[2] and is_const(it.args[1][1]) and isinstance(cval(it.args[1][1]), str):
+                        v_ = it.args[1][0]
+                        k = _attr_name(v_) if _attr_name(v_) and _attr_name(v_) not in kw else "v%d" % len(kw)
+                        kw[k] = v_
+                        parts.append("{%s%s}" % (k, (":" + cval(it.args[1][1])) if cval(it.args[1][1]) else ""))
+                    else:
+                        parts = None
+                        break
+                if parts:
+                    fs_ = _FStr(C(cval(t.args[0]).replace("{", "{{").replace("}", "}}").join(parts)), kw, e.where)
+                    fs_.d["result"] = t
+                    fs_.ctx, fs_.facts, fs_.uid = e.ctx, e.facts, e.uid
+                    fmts.append(fs_)
     return fi, ex, res, fmts
 
 
@@ -369,12 +390,20 @@ def _not_none_known(fmt_event, value: Term, attr: Term) -> bool:
         if r[0] == "rel" and r[1] == "Eq" and any(unsnap(x) is attr for x in (r[2], r[3])) and any(is_const(x) and isinstance(cval(x), int) for x in (r[2], r[3])):
             return True
     # (b) the value is `X if attr is None else attr`
-    v = unsnap(value)
-    if v.op == "phi":
+    def mapped(v) -> bool:
+        v = unsnap(v)
+        if v.op != "phi":
+            return v is not attr
         r = rel(v.args[0], True)
         if r[0] == "rel" and r[1] in ("Is", "IsNot") and ((unsnap(r[2]) is attr and r[3] is NONE) or (unsnap(r[3]) is attr and r[2] is NONE)):
             none_arm, other = (v.args[1], v.args[2]) if r[1] == "Is" else (v.args[2], v.args[1])
-            return unsnap(other) is attr and not any(unsnap(x) is attr for x in _alts(none_arm))
+            return (unsnap(other) is attr or mapped(other)) and not any(unsnap(x) is attr for x in _alts(none_arm))
+        # a selection on something else: each arm on its own
+        return mapped(v.args[1]) and mapped(v.args[2])
+
+    v = unsnap(value)
+    if v.op == "phi":
+        return mapped(v)
     return False
 
 
